@@ -376,6 +376,19 @@ func (s *Session) broadcast(ctx context.Context, wants []cid.Cid) {
 	// blocks for a while) then broadcast all pending wants.
 	if wants == nil {
 		wants = s.sw.PrepareBroadcast()
+	} else {
+		// The request to broadcast these keys was queued some time ago (all
+		// peers were exhausted). Blocks may have been received, or wants
+		// canceled, since then: broadcasting a want that the session no
+		// longer has would leave it in the want-list for good, because
+		// nothing would ever cancel it.
+		stillWanted := make([]cid.Cid, 0, len(wants))
+		for _, c := range wants {
+			if s.sw.isWanted(c) {
+				stillWanted = append(stillWanted, c)
+			}
+		}
+		wants = stillWanted
 	}
 
 	// Broadcast a want-have for the live wants to connected peers.
